@@ -23,12 +23,19 @@ pub struct Setting {
     pub salt: u32,
 }
 impl Setting {
-    fn cache(&self) -> InstructionCache {
+    /// the instruction list as supplied by the caller (the leaves are judged against this, not
+    /// against what the cache object reports)
+    fn supplied(&self) -> Vec<String> {
         match self.instr {
-            0 => InstructionCache::new(vec![]),
-            1 => InstructionCache::new(vec!["FLOAT.TAN".to_string()]),
-            _ => InstructionCache::new(crate::exec::registry_names()),
+            0 => vec![],
+            1 => vec!["FLOAT.TAN".to_string()],
+            // a caller's own list: not upper case, a duplicate, unsorted
+            3 => ["my.double", "Sensor.Read", "NOOP", "zz.last", "NOOP", "x"].iter().map(|s| s.to_string()).collect(),
+            _ => crate::exec::registry_names(),
         }
+    }
+    fn cache(&self) -> InstructionCache {
+        InstructionCache::new(self.supplied())
     }
     fn state(&self) -> StateSpec {
         let mut s = StateSpec::default();
@@ -39,7 +46,7 @@ impl Setting {
         s
     }
     fn to_json(&self) -> Value {
-        let il = ["empty", "one name", "full registry"][self.instr as usize];
+        let il = ["empty", "one name", "full registry", "caller's own names"][self.instr as usize];
         json!({"instruction_list": il, "bound_names": self.bindings, "new_erc_name_probability": fjson(self.pnew), "salt": self.salt})
     }
     fn from_json(v: &Value) -> Option<Setting> {
@@ -48,6 +55,7 @@ impl Setting {
             instr: match il {
                 "empty" => 0,
                 "one name" => 1,
+                "caller's own names" => 3,
                 _ => 2,
             },
             bindings: v.get("bound_names")?.as_u64()? as u8,
@@ -138,13 +146,13 @@ fn draw_with_size(set: &Setting, n: usize, st: &mut LeafStats) -> Result<ItemSpe
     if Item::size(&item) != n || t.points() != n {
         return Err(Fail::new("C12/random_code_with_size/wrong-size", format!("requested {} points, Item::size = {}, counted = {} | {}", n, Item::size(&item), t.points(), t.render())));
     }
-    check_leaves(&t, set, &cache.list, st)?;
+    check_leaves(&t, set, &set.supplied(), st)?;
     Ok(t)
 }
 
 fn settings() -> Vec<Setting> {
     let mut v = vec![];
-    for instr in 0..3u8 {
+    for instr in 0..4u8 {
         for bindings in [0u8, 1, 5] {
             for pnew in [0.0f32, 0.001, 0.5, 1.0, f32::NAN] {
                 v.push(Setting { instr, bindings, pnew, salt: 0 });
